@@ -1,5 +1,8 @@
 (* C07 — binary STL round trip and size law.  Statements only; proofs live in Formats/StlProofs.v. *)
 From PF Require Import Base.Bytes Formats.Stl Formats.StlProofs.
+From PF Require Import Formats.StlNormal Formats.StlNormalProofs Formats.StlIo Formats.StlIoProofs.
+From Coq Require Import ZArith Reals.
+From Flocq Require Import Core.Raux Core.Zaux Core.Defs.
 Open Scope N_scope.
 
 (* 84 + 50*n bytes for n triangles, for every n including 0 *)
@@ -165,4 +168,126 @@ Example stl_chunk_example :
   let bytes := write hdr ts ++ [1; 2; 3] in
   read_chunked 2 bytes = Some (hdr, ts) /\ read bytes = Some (hdr, ts) /\
   read_chunked 2 (firstn 300 bytes) = None /\ read (firstn 300 bytes) = None.
+Proof. vm_compute. repeat split; reflexivity. Qed.
+
+(* ==================================================================================================================
+   Round 4
+   ================================================================================================================== *)
+
+(* ---- the reader side: an io.Reader hands out the data in pieces ----
+   A stream is the list of pieces successive Read calls deliver (any sizes, empty pieces included).  stl.Read fills
+   every buffer with io.ReadFull ([pull]): for EVERY segmentation of the input and every chunk size k >= 1 it
+   returns exactly what it returns on the whole byte string (so: files above bufio's 4096 bytes, pipes, sockets,
+   iotest.HalfReader / OneByteReader / DataErrReader change nothing) *)
+Theorem stl_read_piece_independent : forall k ps, 1 <= k -> read_stream k ps = read (concat ps).
+Proof. exact read_stream_eq_read. Qed.
+Print Assumptions stl_read_piece_independent.
+
+(* end to end: a written file, cut into pieces any way, followed by anything: the same records in the same order *)
+Theorem stl_stream_roundtrip : forall hdr ts ps,
+  length hdr = 80%nat -> Forall tri_ok ts -> N.of_nat (length ts) < 4294967296 ->
+  (exists extra, concat ps = write hdr ts ++ extra) ->
+  read_stream stl_chunk ps = Some (hdr, ts).
+Proof. exact stream_roundtrip. Qed.
+Print Assumptions stl_stream_roundtrip.
+
+(* a reader that fails (or ends) before the announced records are complete: rejected, wherever it stops *)
+Theorem stl_stream_cut_rejected : forall hdr ts ps k,
+  length hdr = 80%nat -> bytes_ok hdr -> N.of_nat (length ts) < 4294967296 ->
+  (k < length (write hdr ts))%nat -> concat ps = firstn k (write hdr ts) ->
+  read_stream stl_chunk ps = None.
+Proof. exact stream_cut_rejected. Qed.
+Print Assumptions stl_stream_cut_rejected.
+
+(* ---- the writer side: a writer that accepts cap bytes and then fails ----
+   an error is reported exactly when the 84 + 50 n bytes do not fit *)
+Theorem stl_failing_writer_reported : forall cap hdr ts, length hdr = 80%nat ->
+  snd (write_to cap (write hdr ts)) = true <-> (cap < 84 + 50 * length ts)%nat.
+Proof. exact write_to_reported. Qed.
+Print Assumptions stl_failing_writer_reported.
+
+(* ---- mesh -> bytes -> pieces -> chunked reader -> mesh, composed ----
+   what stl.ReadMesh returns on the bytes stl.WriteMesh wrote, delivered in any pieces: 3n vertices, identity
+   indices, the corner positions gathered through the index *)
+Theorem stl_mesh_stream_roundtrip : forall idx pos fns ps,
+  length idx = (3 * length fns)%nat -> Forall (fun i => (i < length pos)%nat) idx ->
+  Forall vec_ok pos -> Forall vec_ok fns -> N.of_nat (length fns) < 4294967296 ->
+  (exists bytes, write_mesh idx (Some pos) fns = Some bytes /\ concat ps = bytes) ->
+  exists hdr ts,
+    read_stream stl_chunk ps = Some (hdr, ts) /\ length ts = length fns /\
+    rm_pos ts = corner_positions idx pos /\ map tn ts = fns /\ Forall (fun t => tattr t = 0) ts.
+Proof. exact mesh_stream_roundtrip. Qed.
+Print Assumptions stl_mesh_stream_roundtrip.
+
+(* ---- the facet-normal VALUE ----
+   [facet_ok s v]: the three float32 words v are the roundings of s / |s|, decided in integer arithmetic
+   (Formats/StlNormal.v).  Soundness over the real numbers: each accepted word is a finite float32 within
+   (1/2 + 2^-21) ulp of the corresponding component of the normalised sum s / sqrt (s.s) — half an ulp is
+   round-to-nearest, the 2^-21 ulp covers Go evaluating the quotient in float64 before rounding to float32.
+   (Print Assumptions lists the axioms of Coq's standard real numbers for these two theorems.) *)
+Theorem stl_facet_normal_word : forall sk S w sg m e,
+  (0 < S)%Z -> f32_decode w = Some (sg, m, e) -> fn_word_ok sk S w = true ->
+  (Rabs (f32R w - IZR sk / sqrt (IZR S)) <= (/ 2 + bpow radix2 (- 21)) * bpow radix2 e)%R.
+Proof. exact fn_word_sound. Qed.
+Print Assumptions stl_facet_normal_word.
+
+Theorem stl_facet_normal_value : forall x y z wx wy wz,
+  facet_ok (x, y, z) (wx, wy, wz) = true ->
+  let S := (x * x + y * y + z * z)%Z in
+  (0 < S)%Z /\
+  forall sk w, (sk, w) = (x, wx) \/ (sk, w) = (y, wy) \/ (sk, w) = (z, wz) ->
+    exists sg m e, f32_decode w = Some (sg, m, e) /\
+      (Rabs (f32R w - IZR sk / sqrt (IZR S)) <= (/ 2 + bpow radix2 (- 21)) * bpow radix2 e)%R.
+Proof. exact facet_ok_sound. Qed.
+Print Assumptions stl_facet_normal_value.
+
+(* "normalised": the length of the corner normals does not matter — scaling all three by any c > 0 (in particular
+   the 1/3 of the mean, and the common power of two the harness drops) leaves the accepted words unchanged *)
+Theorem stl_facet_normal_scale_invariant : forall c s v, (0 < c)%Z -> facet_ok (zscale c s) v = facet_ok s v.
+Proof. exact facet_ok_scale. Qed.
+Print Assumptions stl_facet_normal_scale_invariant.
+
+(* mesh level: the check's [mesh_normals_ok] says: for every triangle t, the stored words are the normalised sum of
+   the normals of vertices idx[3t], idx[3t+1], idx[3t+2] *)
+Theorem stl_mesh_normals_spec : forall idx nrm fns,
+  mesh_normals_ok idx nrm fns = true <->
+  forall t, (t < length fns)%nat -> facet_ok (corner_sum idx nrm t) (nth t fns vzero) = true.
+Proof. exact mesh_normals_ok_spec. Qed.
+Print Assumptions stl_mesh_normals_spec.
+
+(* behaviours the property excludes, as witnesses:
+   the un-normalised mean is not accepted (three corner normals (0,0,2): mean (0,0,2) = word 0x40000000, the
+   normalised mean is (0,0,1) = 0x3F800000); a word one ulp off the correctly rounded one is not accepted
+   (1/3 rounds to 0x3EAAAAAB) *)
+Theorem stl_unnormalised_mean_refuted :
+  facet_ok (0, 0, 6)%Z (0, 0, 1073741824) = false /\ facet_ok (0, 0, 6)%Z (0, 0, 1065353216) = true.
+Proof. vm_compute. split; reflexivity. Qed.
+Print Assumptions stl_unnormalised_mean_refuted.
+
+Theorem stl_one_ulp_off_refuted :
+  facet_ok (1, 2, 2)%Z (1051372203, 1059760811, 1059760811) = true /\
+  facet_ok (1, 2, 2)%Z (1051372204, 1059760811, 1059760811) = false /\
+  facet_ok (1, 2, 2)%Z (1051372202, 1059760811, 1059760811) = false.
+Proof. vm_compute. repeat split; reflexivity. Qed.
+Print Assumptions stl_one_ulp_off_refuted.
+
+(* reading then writing is NOT the identity on inputs with trailing bytes (they are outside "well-formed"):
+   the trailing bytes are dropped *)
+Theorem stl_trailing_bytes_dropped_refuted :
+  exists b hdr ts, read b = Some (hdr, ts) /\ write hdr ts <> b.
+Proof.
+  exists (repeat 0 85), (repeat 0 80), []. split; [vm_compute; reflexivity|].
+  intros H. apply (f_equal (@length N)) in H. vm_compute in H. discriminate.
+Qed.
+Print Assumptions stl_trailing_bytes_dropped_refuted.
+
+(* non-vacuity of the stream theorems: a 2-record file delivered as [3 bytes; nothing; 100 bytes; 1 byte; the rest]
+   and the same stream failing 10 bytes before the end *)
+Example stl_stream_example :
+  let hdr := repeat 9 80 in
+  let ts := map (fun i => {| tn := (i, 0, 1); ta := (i + 1, 2, 3); tb := (4, i * 1000, 5); tc := (6, 7, 8); tattr := i |}) (iotaN 2 0) in
+  let b := write hdr ts in
+  let ps := [firstn 3 b; []; firstn 100 (skipn 3 b); firstn 1 (skipn 103 b); skipn 104 b] in
+  concat ps = b /\ read_stream stl_chunk ps = Some (hdr, ts) /\ read_stream 1 ps = Some (hdr, ts) /\
+  read_stream stl_chunk [firstn 3 b; firstn 171 (skipn 3 b)] = @None (list N * list tri).
 Proof. vm_compute. repeat split; reflexivity. Qed.
